@@ -13,7 +13,9 @@ EXPLANATION = (
     "output-voltage leaf that reports state OFF returns the literal 0 V, so deadness is visible to the children through "
     "the voltage alone; (R3) the state vector carried by the solver is the forward pass's own result, _sys_init seeds "
     "each node from its own parents and its own phase table, and Source._get_state is OFF exactly for 0 V or sleep. With "
-    "C01-R4/R5/R6 a child of a dead node sees 0 V, hence is on a D row itself. Not decided: that the off state has "
+    "C01-R4/R5/R6 a child of a dead node sees 0 V, hence is on a D row itself; (R4) the reported Vin / Vout / Iin / Power / "
+    "Loss of a row are the laws evaluated on the row's own operands and the parent / child tables are rebuilt "
+    "unconditionally before use. Not decided: that the off state has "
     "finished propagating when the tolerance test stops the iteration (C03).")
 
 
@@ -26,6 +28,11 @@ def run(model, rep, tier):
     A(lambda: rep.floor("R1", check_against_spec(model, rep, "R1", KINDS, "IVP", want_rows=want, label=" dead/sleep rows"), 66))
     A(r2, model, rep)
     A(r3, model, rep)
+    # the reported row of a dead / sleeping component is the law evaluated on that component's own operands, and the
+    # parent / child tables the propagation relies on are rebuilt before every analysis
+    A(lambda: sysrules.row_assembly(model, rep, sysrules.roles(model), "R4", ["Vin (V)", "Vout (V)", "Iin (A)", "Power (W)", "Loss (W)"]))
+    from .c16 import rel_update_rule
+    A(rel_update_rule, model, rep, sysrules.roles(model))
 
 
 def r2(model, rep):
